@@ -63,7 +63,11 @@ DqBubbleLoop(s, pos, idx, isMin, f) ==          \* ret = <<position>>; does NOT 
   IF Better(At(s.pri, idx), PrioAt(s, gp), isMin)
   THEN LET gi == At(s.heap, gp) IN
        IF ~In(s.heap, pos) \/ ~In(s.qp, gi) THEN UB(s, f1)
-       ELSE DqBubbleLoop([s EXCEPT !.heap = Put(@, pos, gi), !.qp = Put(@, gi, pos)], gp, idx, isMin, f1)
+       ELSE IF ~SwapBubble
+            THEN DqBubbleLoop([s EXCEPT !.heap = Put(@, pos, gi), !.qp = Put(@, gi, pos)], gp, idx, isMin, f1)
+            ELSE IF ~In(s.qp, idx) THEN UB([s EXCEPT !.heap = Put(@, pos, gi), !.qp = Put(@, gi, pos)], f1)
+            ELSE DqBubbleLoop([s EXCEPT !.heap = Put(Put(@, pos, gi), gp, idx),
+                                        !.qp = Put(Put(@, gi, pos), idx, gp)], gp, idx, isMin, f1)
   ELSE Ok(s, f1, <<pos>>)
 DqBubbleDir(s, pos, idx, isMin, f) ==
   IF ~In(s.pri, idx) THEN Panic(s, f) ELSE DqBubbleLoop(s, pos, idx, isMin, f)
@@ -82,8 +86,10 @@ DqBubbleUp(s, pos, idx, f) ==
   LET f1   == TickCmp(f)
       pi   == At(s.heap, par)
       less == PrioAt(s, par) < At(s.pri, idx)
-      mvOK == In(s.heap, pos) /\ In(s.qp, pi)
-      moved == [s EXCEPT !.heap = Put(@, pos, pi), !.qp = Put(@, pi, pos)] IN
+      mvOK == In(s.heap, pos) /\ In(s.qp, pi) /\ (~SwapBubble \/ In(s.qp, idx))
+      moved == IF SwapBubble
+               THEN [s EXCEPT !.heap = Put(Put(@, pos, pi), par, idx), !.qp = Put(Put(@, pi, pos), idx, par)]
+               ELSE [s EXCEPT !.heap = Put(@, pos, pi), !.qp = Put(@, pi, pos)] IN
   IF MinLevel(pos)
   THEN IF less THEN (IF ~mvOK THEN UB(s, f1) ELSE final(DqBubbleDir(moved, par, idx, FALSE, f1)))
                ELSE final(DqBubbleDir(s, pos, idx, TRUE, f1))
@@ -127,8 +133,10 @@ DqPush(s, k, p, f) ==
   ELSE LET i  == s.size
            s1 == [s EXCEPT !.keys = Append(@, k), !.pri = Append(@, p),
                            !.qp = Append(@, i), !.heap = Append(@, i)] IN
-       Then(DqBubbleUp(s1, i, i, f1),
-            LAMBDA x : Ok([x.st EXCEPT !.size = @ + 1], x.fuel, <<>>))
+       IF SwapBubble
+       THEN SetRet(DqBubbleUp([s1 EXCEPT !.size = @ + 1], i, i, f1), <<>>)
+       ELSE Then(DqBubbleUp(s1, i, i, f1),
+                 LAMBDA x : Ok([x.st EXCEPT !.size = @ + 1], x.fuel, <<>>))
 
 DqPushDir(s, k, p, up, f) ==
   IF f.look = 0 THEN Panic(s, f) ELSE
@@ -202,7 +210,7 @@ DqDeserialize(pairs, f) == Then(StoreDeserialize(pairs, f), LAMBDA x : DqHeapBui
 
 RECURSIVE DqPushAll(_,_,_)
 DqPushAll(s, pairs, f) ==
-  IF pairs = <<>> THEN Ok(s, f, <<>>) ELSE
+  IF pairs = <<>> THEN (IF f.cb = 0 THEN Panic(s, f) ELSE Ok(s, TickCb(f), <<>>)) ELSE
   IF f.cb = 0 THEN Panic(s, f) ELSE
   Then(DqPush(s, pairs[1][1], pairs[1][2], TickCb(f)), LAMBDA x : DqPushAll(x.st, Tail(pairs), x.fuel))
 DqExtend(s, pairs, rebuild, f) ==
